@@ -3,6 +3,9 @@
 set -e
 export CARGO_NET_OFFLINE=true
 cd /verif/harness && cargo build --offline --release
+if [ -d /verif/harness_raft ]; then
+  cd /verif/harness_raft && cargo build --offline --release
+fi
 if [ -x /verif/harness_server/mkmirror.sh ]; then
   /verif/harness_server/mkmirror.sh
   cd /verif/harness_server && cargo build --offline --release
